@@ -188,6 +188,20 @@ def replay_localapp(rec, m):
                     pass
             return bad, (f"join() called in state {s0.name}: {out}; state {before[0].name} -> {app._state.name}, "
                          f"clean_up calls {before[1]} -> {app.cleanups} (AppStateError and no side effect expected: {not allowed})")
+        if "output_captured_when_the_end_is_reported" in ob:
+            # poll until FINISHED (no join), then read what the program wrote: allowed from FINISHED on
+            app = LProbe("/bin/echo")
+            app.add_additional_options(["hello"])
+            app.start()
+            t0 = time.time()
+            while app.get_app_state() != AppState.FINISHED and time.time() - t0 < 10:
+                time.sleep(0.05)
+            try:
+                out = repr(app.get_stdout())
+                bad = "hello" not in out
+            except Exception as e:
+                out, bad = f"{type(e).__name__}: {e}", True
+            return bad, f"/bin/echo hello polled to state {app.get_app_state().name} (no join): get_stdout() -> {out}"
         if "library_requires[Popen.wait" in ob:
             # a child that writes 256 KiB to each pipe and then ends at once: join() must return its output
             app = LProbe(os.path.join(fix, "noisy"))
